@@ -69,6 +69,30 @@ Definition str_is_empty (s : str) : bool := match s with [] => true | _ => false
 Definition str_contains (f : Z -> bool) (s : str) : bool := existsb f s.
 Definition str_starts_with (f : Z -> bool) (s : str) : bool := match s with c :: _ => f c | [] => false end.
 Definition str_ends_with (f : Z -> bool) (s : str) : bool := last_is f s.
+(* str patterns: strip_prefix / strip_suffix / starts_with / ends_with / contains with a string (or one char) *)
+Fixpoint strip_prefix_str (pre s : str) : option str :=
+  match pre, s with
+  | [], _ => Some s
+  | a :: pre', b :: s' => if a =? b then strip_prefix_str pre' s' else None
+  | _ :: _, [] => None
+  end.
+Definition strip_suffix_str (suf s : str) : option str := option_map (@rev Z) (strip_prefix_str (rev suf) (rev s)).
+Definition starts_with_str (pre s : str) : bool := opt_is_some (strip_prefix_str pre s).
+Definition ends_with_str (suf s : str) : bool := opt_is_some (strip_suffix_str suf s).
+Fixpoint contains_str (needle s : str) : bool :=
+  starts_with_str needle s || match s with [] => false | _ :: r => contains_str needle r end.
+(* trim_start_matches / trim_end_matches / trim_matches with an ASCII char pattern *)
+Fixpoint drop_while_pat (f : Z -> bool) (s : str) : str :=
+  match s with c :: r => if f c then drop_while_pat f r else s | [] => [] end.
+Definition trim_start_matches (f : Z -> bool) (s : str) : str := drop_while_pat f s.
+Definition trim_end_matches (f : Z -> bool) (s : str) : str := rev (drop_while_pat f (rev s)).
+Definition trim_matches (f : Z -> bool) (s : str) : str := trim_end_matches f (trim_start_matches f s).
+Definition str_eq_ignore_ascii_case (a b : str) : bool := str_eqb (map lower a) (map lower b).
+Definition is_upper_ascii (c : Z) : bool := (65 <=? c) && (c <=? 90).
+Definition is_lower_ascii (c : Z) : bool := (97 <=? c) && (c <=? 122).
+Definition is_digit_ascii (c : Z) : bool := (48 <=? c) && (c <=? 57).
+Definition is_alnum_ascii (c : Z) : bool := is_alpha c || is_digit_ascii c.
+
 (* str::to_lowercase / to_uppercase, ASCII part (see Model.v replace_or_add_extension for why this
    decides the comparisons with "pdb" / "dll"; code ids are hex text) *)
 Definition str_to_lowercase (s : str) : str := map lower s.
